@@ -663,6 +663,32 @@ def _v_set_unprintable_const(u, v, i):
     u.V(v).const_value = serde.TensorProtoTensor(tp)
 
 
+@op("v_set_lazy_const", "vi")
+def _v_set_lazy_const(u, v, i):
+    """A small lazily evaluated constant; the universe counts how often its function is called (a side effect of the
+    user's own code: only reading the data may trigger it)."""
+    import numpy as np
+
+    def load():
+        u.lazy_calls = getattr(u, "lazy_calls", 0) + 1
+        return ir.Tensor(np.arange(3, dtype=np.float32) + i)
+
+    u.V(v).const_value = ir.LazyTensor(load, ir.DataType.FLOAT, ir.Shape([3]), cache=bool(i % 2), name="c_lazy")
+
+
+@op("tape_initializer", "hib")
+def _tape_initializer(u, h, i, fresh):
+    """ir.tape.Tape.initializer(): registers an initializer on the graph the tape was created for.  One tape per graph lives
+    as long as the universe (so it may have been created before, inside or after any journal); `fresh` makes a new one."""
+    import numpy as np
+
+    g = u.G(h)
+    tapes = u.__dict__.setdefault("tapes", {})
+    if fresh or id(g) not in tapes:
+        tapes[id(g)] = ir.tape.Tape(g)
+    return tapes[id(g)].initializer(ir.Tensor(np.array([float(i)], dtype=np.float32)), name=f"tape_w{i % 5}")
+
+
 @op("new_model", "h")
 def _new_model(u, h):
     g = u.G(h)
@@ -679,7 +705,7 @@ def _new_function(u, h, k):
     return f
 
 
-SETTER_OPS = ["n_set_attr", "n_set_fields", "v_set_fields", "v_set_equal", "v_set_unprintable_const", "new_model", "new_function"]
+SETTER_OPS = ["n_set_attr", "n_set_fields", "v_set_fields", "v_set_equal", "v_set_unprintable_const", "v_set_lazy_const", "tape_initializer", "new_model", "new_function"]
 DEFAULT_OPS = [k for k in ALPHABET if k not in ("conv_replace_nodes_values",) and k not in SETTER_OPS]
 
 
